@@ -428,9 +428,11 @@ func VerifH_c13_parser_headers() {
 	prefixes := []string{"$", "*", "%", "~", ">", "|", "!", "=", "$?\r\n;", "!?\r\n;", "=?\r\n;", "$?\r\n;1\r\nx\r\n;", "*1\r\n$", "*2\r\n$1\r\na\r\n$", ":"}
 	p := prefixes[vChoice("prefix", len(prefixes))]
 	n := vDecimal("n")
-	restMax := 2
+	// what follows the header: up to 5 (thorough 7) arbitrary bytes (enough for a payload
+	// of 3 bytes with its CR LF, e.g. a verbatim string "=3\r\nabc\r\n")
+	restMax := 5
 	if vTier() > 0 {
-		restMax = 3
+		restMax = 7
 	}
 	rest := vBytes("rest", restMax)
 	content := append([]byte(p+n+"\r\n"), rest...)
